@@ -559,6 +559,8 @@ pub struct PropDef {
     pub run: fn(&RunCtx),
     /// re-run the oracle on the concrete inputs of a replay file: Ok(()) = holds
     pub replay: fn(&Value) -> Result<(), String>,
+    /// optional domain-level reducer applied to a failing replay value after tape shrinking
+    pub minimize: Option<fn(&Value) -> Option<Value>>,
 }
 
 pub fn write_replay(ctx: &RunCtx, f: &Failure) -> PathBuf {
@@ -644,7 +646,17 @@ pub fn run_property(def: &PropDef, tier: Tier, seed: u64, verif_dir: PathBuf) ->
     if violations == 0 {
         (def.run)(&ctx);
     }
-    let failures = ctx.failures.lock().unwrap().clone();
+    let mut failures = ctx.failures.lock().unwrap().clone();
+    if let Some(min) = def.minimize {
+        for f in failures.iter_mut() {
+            if let Ok(Some(v2)) = catch(|| min(&f.replay)) {
+                if let Ok(Err(msg)) = catch(|| (def.replay)(&v2)) {
+                    f.replay = v2;
+                    f.message = msg;
+                }
+            }
+        }
+    }
     for f in &failures {
         let p = write_replay(&ctx, f);
         println!("VIOLATION property={} replay={}", def.id, p.display());
